@@ -9,6 +9,31 @@ use gmsol_utils::order::PositionKind;
 use crate::svm::{meta, process, Db, TxError};
 use crate::world::{ata, ix, sys, MarketKeys, W};
 
+/// callback accounts of an order (the competition program as the callback target)
+#[derive(Clone, Copy, Debug)]
+pub struct Callback {
+    pub authority: Pubkey,
+    pub program: Pubkey,
+    pub shared: Pubkey,
+    pub partitioned: Pubkey,
+}
+
+thread_local! {
+    /// callback used by the order helpers of this thread (None = orders without callback)
+    pub static CALLBACK: std::cell::Cell<Option<Callback>> = const { std::cell::Cell::new(None) };
+}
+
+pub fn with_callback<R>(cb: Option<Callback>, f: impl FnOnce() -> R) -> R {
+    let old = CALLBACK.with(|c| c.replace(cb));
+    let r = f();
+    CALLBACK.with(|c| c.set(old));
+    r
+}
+
+fn cb() -> Option<Callback> {
+    CALLBACK.with(|c| c.get())
+}
+
 /// which position an order works on
 #[derive(Clone, Copy, Debug, PartialEq, Eq)]
 pub struct Side {
@@ -104,10 +129,10 @@ impl W {
             initial_collateral_token_escrow: Some(ata(&order, &ctoken)), final_output_token_escrow: None, long_token_escrow: Some(ata(&order, &m.long)), short_token_escrow: Some(ata(&order, &m.short)),
             initial_collateral_token_source: Some(ata(&owner, &ctoken)),
             system_program: sys(), token_program: spl_token::ID, associated_token_program: spl_associated_token_account::ID,
-            callback_authority: None, callback_program: None, callback_shared_data_account: None, callback_partitioned_data_account: None,
+            callback_authority: cb().map(|c| c.authority), callback_program: cb().map(|c| c.program), callback_shared_data_account: cb().map(|c| c.shared), callback_partitioned_data_account: cb().map(|c| c.partitioned),
             event_authority: self.event_authority, program: self.pid,
         };
-        process(db, &ix(self.pid, accounts, gmsol_store::instruction::CreateOrderV2 { nonce, params, callback_version: None }), &[owner])
+        process(db, &ix(self.pid, accounts, gmsol_store::instruction::CreateOrderV2 { nonce, params, callback_version: cb().map(|_| 0u8) }), &[owner])
     }
 
     pub fn execute_increase(&self, db: &mut Db, m: &MarketKeys, owner: Pubkey, nonce: [u8; 32], side: Side, by: Pubkey, throw: bool) -> std::result::Result<(), TxError> {
@@ -125,7 +150,7 @@ impl W {
             initial_collateral_token_escrow: Some(ata(&order, &ctoken)), final_output_token_escrow: None, long_token_escrow: Some(ata(&order, &m.long)), short_token_escrow: Some(ata(&order, &m.short)),
             initial_collateral_token_vault: Some(self.vault(&ctoken)), final_output_token_vault: None, long_token_vault: Some(self.vault(&m.long)), short_token_vault: Some(self.vault(&m.short)),
             token_program: spl_token::ID, system_program: sys(),
-            callback_authority: None, callback_program: None, callback_shared_data_account: None, callback_partitioned_data_account: None,
+            callback_authority: cb().map(|c| c.authority), callback_program: cb().map(|c| c.program), callback_shared_data_account: cb().map(|c| c.shared), callback_partitioned_data_account: cb().map(|c| c.partitioned),
             event_authority: self.event_authority, program: self.pid,
         };
         let mut i = ix(self.pid, accounts, gmsol_store::instruction::ExecuteIncreaseOrSwapOrderV2 { recent_timestamp: ts, execution_fee: 5_000, throw_on_execution_error: throw });
@@ -153,10 +178,10 @@ impl W {
             initial_collateral_token_escrow: None, final_output_token_escrow: Some(ata(&order, &ctoken)), long_token_escrow: Some(ata(&order, &m.long)), short_token_escrow: Some(ata(&order, &m.short)),
             initial_collateral_token_source: None,
             system_program: sys(), token_program: spl_token::ID, associated_token_program: spl_associated_token_account::ID,
-            callback_authority: None, callback_program: None, callback_shared_data_account: None, callback_partitioned_data_account: None,
+            callback_authority: cb().map(|c| c.authority), callback_program: cb().map(|c| c.program), callback_shared_data_account: cb().map(|c| c.shared), callback_partitioned_data_account: cb().map(|c| c.partitioned),
             event_authority: self.event_authority, program: self.pid,
         };
-        process(db, &ix(self.pid, accounts, gmsol_store::instruction::CreateOrderV2 { nonce, params, callback_version: None }), &[owner])
+        process(db, &ix(self.pid, accounts, gmsol_store::instruction::CreateOrderV2 { nonce, params, callback_version: cb().map(|_| 0u8) }), &[owner])
     }
 
     pub fn execute_decrease(&self, db: &mut Db, m: &MarketKeys, owner: Pubkey, nonce: [u8; 32], side: Side, by: Pubkey, throw: bool) -> std::result::Result<(), TxError> {
@@ -186,7 +211,7 @@ impl W {
             final_output_token_vault: self.vault(&ctoken), long_token_vault: self.vault(&m.long), short_token_vault: self.vault(&m.short),
             claimable_long_token_account_for_user: cl, claimable_short_token_account_for_user: cs, claimable_pnl_token_account_for_holding: ch,
             token_program: spl_token::ID, system_program: sys(),
-            callback_authority: None, callback_program: None, callback_shared_data_account: None, callback_partitioned_data_account: None,
+            callback_authority: cb().map(|c| c.authority), callback_program: cb().map(|c| c.program), callback_shared_data_account: cb().map(|c| c.shared), callback_partitioned_data_account: cb().map(|c| c.partitioned),
             event_authority: self.event_authority, program: self.pid,
         };
         let mut i = ix(self.pid, accounts, gmsol_store::instruction::ExecuteDecreaseOrderV2 { recent_timestamp: ts, execution_fee: 5_000, throw_on_execution_error: throw });
@@ -208,7 +233,7 @@ impl W {
             initial_collateral_token_escrow: increase.then(|| ata(&order, &ctoken)), final_output_token_escrow: (!increase).then(|| ata(&order, &ctoken)), long_token_escrow: Some(ata(&order, &m.long)), short_token_escrow: Some(ata(&order, &m.short)),
             initial_collateral_token_ata: increase.then(|| ata(&owner, &ctoken)), final_output_token_ata: (!increase).then(|| ata(&receiver, &ctoken)), long_token_ata: Some(ata(&receiver, &m.long)), short_token_ata: Some(ata(&receiver, &m.short)),
             system_program: sys(), token_program: spl_token::ID, associated_token_program: spl_associated_token_account::ID,
-            callback_authority: None, callback_program: None, callback_shared_data_account: None, callback_partitioned_data_account: None,
+            callback_authority: cb().map(|c| c.authority), callback_program: cb().map(|c| c.program), callback_shared_data_account: cb().map(|c| c.shared), callback_partitioned_data_account: cb().map(|c| c.partitioned),
             event_authority: self.event_authority, program: self.pid,
         };
         process(db, &ix(self.pid, accounts, gmsol_store::instruction::CloseOrderV2 { reason: "done".into() }), &[by])
